@@ -24,7 +24,7 @@ G = ["g2", "g1"]
 H = ["hd", "hb", "ha", "hc"]
 K = [10, -2, 9]  # string order differs from numeric order
 YC = ["u", "w", "v"]
-VARIANTS = ["str", "cat-ord", "ord-cat"]
+VARIANTS = ["str", "cat-ord", "ord-cat", "unused"]
 _FR = {}
 
 
@@ -59,6 +59,12 @@ def frame(n, variant, rot):
         df["g"] = pd.Categorical(df["g"], categories=["g2", "g1"])
         order["f"] = ["fc", "fa", "fb"]
         df["yc"] = pd.Categorical(df["yc"], categories=["w", "v", "u"])
+    elif variant == "unused":  # declared categories that never occur
+        df["f"] = pd.Categorical(df["f"], categories=["fc", "fz", "fa", "fb"], ordered=True)  # ordered: all declared levels, in that order
+        df["g"] = pd.Categorical(df["g"], categories=["g2", "gz", "g1"])  # unordered: the observed levels, sorted
+        order["f"] = ["fc", "fz", "fa", "fb"]
+        df["yc"] = pd.Categorical(df["yc"], categories=["w", "zz", "v", "u"], ordered=True)
+        order["yc"] = ["w", "zz", "v", "u"]
     _FR[key] = (df, order)
     return _FR[key]
 
